@@ -13,9 +13,9 @@ UT = "robotools/utils.py"
 MUTANTS = [
     dict(id="fluent-dst-composition", expect=["C16", "C01"], edits=[(FLW, "                                compositions=[source.get_well_composition(s)],", "                                compositions=[destination.get_well_composition(d)],")]),
     dict(id="fluent-noop-rewrite", expect=[], silent=["C16"], edits=[(FLW, "                            nsteps += 1", "                            nsteps = nsteps + 1")]),
-    dict(id="condense-plus-one", expect=["C11"], edits=[(EVW, "            source.condense_log(nsteps, label=label)", "            source.condense_log(nsteps + 1, label=label)")]),
+    dict(id="log-live-array", expect=["C11"], edits=[(LW, "        self._history.append(self.volumes)", "        self._history.append(self._volumes)")]),
     dict(id="volumes-live-array", expect=["C11"], edits=[(LW, "        return self._volumes.copy()", "        return self._volumes")]),
-    dict(id="fluent-exec-zero-steps", expect=["C11"], edits=[(FLW, "                        if v > 0:", "                        if v >= 0:")]),
+    dict(id="fluent-exec-zero-steps", expect=["C16", "C07"], edits=[(FLW, "                        if v > 0:", "                        if v >= 0:")]),
     dict(id="evo-kwargs-not-forwarded", expect=["C07"], edits=[(EVW, """                                compositions=[source.get_well_composition(s)],
                                 **kwargs,
                             )""", """                                compositions=[source.get_well_composition(s)],
